@@ -580,11 +580,38 @@ func msgpackOp(t *rapid.T, b, other []byte) ([]byte, string) {
 			sized = append(sized, i)
 		}
 	}
-	op := rapid.IntRange(0, 9).Draw(t, "mop")
+	op := rapid.IntRange(0, 10).Draw(t, "mop")
 	if len(sized) == 0 && op <= 3 {
 		op = 4 + op%3
 	}
 	switch op {
+	case 10: // re-spell a string (map key, attribute name, value) in a canonically equivalent form, in place or over ANOTHER string item (both spellings present)
+		var ss []int
+		for i, it := range items {
+			if it.Kind == 's' && it.Off+it.Hdr+it.N <= len(b) {
+				ss = append(ss, i)
+			}
+		}
+		if len(ss) == 0 {
+			return genericOp(t, b, other)
+		}
+		src := items[rapid.SampledFrom(ss).Draw(t, "str")]
+		inner := string(b[src.Off+src.Hdr : src.Off+src.Hdr+src.N])
+		alt := norm.NFD.String(inner)
+		if alt == inner {
+			alt = norm.NFC.String(inner)
+		}
+		if alt == inner {
+			alt = inner + rapid.SampledFrom([]string{"e\u0301", "\u1100\u1161", "a\u0323\u0307", "\u212b"}).Draw(t, "suffix")
+		}
+		repl := append(mpMakeHeader('s', uint32(len(alt)), false, 0), alt...)
+		if len(ss) > 1 && rapid.Bool().Draw(t, "over") {
+			dst := items[rapid.SampledFrom(ss).Draw(t, "dst")]
+			if dst.Off != src.Off {
+				return splice(b, dst.Off, dst.Off+dst.Hdr+dst.N, repl), "respell-over"
+			}
+		}
+		return splice(b, src.Off, src.Off+src.Hdr+src.N, repl), "respell-one"
 	case 0, 1: // length-field edit to a hostile length
 		it := items[rapid.SampledFrom(sized).Draw(t, "item")]
 		n := rapid.SampledFrom(hostileLens).Draw(t, "len")
@@ -755,8 +782,14 @@ func jsonOp(t *rapid.T, b, other []byte, typeDoc bool) ([]byte, string) {
 			}
 		}
 		repl = `"` + repl + `"`
-		if rapid.IntRange(0, 3).Draw(t, "all") == 0 {
+		switch rapid.IntRange(0, 4).Draw(t, "all") {
+		case 0:
 			return splice(b, k.Off, k.End, []byte(repl)), "respell-one"
+		case 1:
+			// over ANOTHER string token: both spellings of one name are present
+			if q := toks[rapid.SampledFrom(ss).Draw(t, "dst")]; q.Off != k.Off {
+				return splice(b, q.Off, q.End, []byte(repl)), "respell-over"
+			}
 		}
 		// every occurrence of the same token text (an attribute and its entry in the optional list)
 		out := append([]byte(nil), b[:0]...)
